@@ -18,7 +18,7 @@ import embit.ec as ec
 from embit.util import py_secp256k1, ctypes_secp256k1
 
 PROP = "C07"
-MODS = ["EmbitModel.Props.C07", "EmbitModel.Props.C07X"]
+MODS = ["EmbitModel.Props.C07", "EmbitModel.Props.C07X", "EmbitModel.Props.C07Z"]
 N = 0xFFFFFFFFFFFFFFFFFFFFFFFFFFFFFFFEBAAEDCE6AF48A03BBFD25E8CD0364141
 P = 2**256 - 2**32 - 977
 BACKENDS = {"py": py_secp256k1, "ct": ctypes_secp256k1}
